@@ -1043,6 +1043,7 @@ func resultAccessors(w *World, r *Report, rule string) {
 			panic(undecided{"xpath.Result." + c.meth})
 		}
 		sym := NewSym(w)
+		sym.ExpandReturns = true // the three accessors may share one helper they hand everything to
 		loadOf := func(v ssa.Value, fld *types.Var) bool {
 			ld, ok := v.(*ssa.UnOp)
 			if !ok || ld.Op != token.MUL {
@@ -1086,7 +1087,27 @@ func resultAccessors(w *World, r *Report, rule string) {
 			case isNilConst(r1[i].val):
 				kind = "conversion"
 				call, ok := r0[i].val.(*ssa.Call)
-				if !ok || !call.Call.IsInvoke() || call.Call.Method.Name() != c.conv || !loadOf(call.Call.Value, value) {
+				if ok && !call.Call.IsInvoke() && len(call.Call.Args) == 1 {
+					// value handed to a conversion function the accessor passed in: func(d) { return d.Conv() }
+					var g *ssa.Function
+					switch fv := sym.Resolve(call.Call.Value, r0[i].ctx).(type) {
+					case *ssa.MakeClosure:
+						g, _ = fv.Fn.(*ssa.Function)
+					case *ssa.Function:
+						g = fv
+					}
+					ok = false
+					if g != nil && len(g.Blocks) == 1 && len(g.Params) == 1 && loadOf(call.Call.Args[0], value) {
+						if ret, isRet := g.Blocks[0].Instrs[len(g.Blocks[0].Instrs)-1].(*ssa.Return); isRet && len(ret.Results) == 1 {
+							if inner, isCall := ret.Results[0].(*ssa.Call); isCall && inner.Call.IsInvoke() && inner.Call.Method.Name() == c.conv && inner.Call.Value == ssa.Value(g.Params[0]) {
+								ok = true
+							}
+						}
+					}
+					if !ok {
+						why = "the successful exit does not return value." + c.conv + "()"
+					}
+				} else if !ok || !call.Call.IsInvoke() || call.Call.Method.Name() != c.conv || !loadOf(call.Call.Value, value) {
 					why = "the successful exit does not return value." + c.conv + "()"
 				}
 			default:
